@@ -26,10 +26,13 @@ THEOREMS = [
 ]
 
 CONFIGS = [
-    # (registration mode, key_arguments, raise option)
-    ("disabled", (), False), ("task", (), False), ("arguments", (), False),
-    ("keys", ("k",), False), ("keys", ("k",), True), ("keys", ("k", "v"), True), ("keys", ("v",), False),
+    # (registration mode, key_arguments, raise option, disable_cache_args)
+    ("disabled", (), False, ()), ("task", (), False, ()), ("arguments", (), False, ()),
+    ("keys", ("k",), False, ()), ("keys", ("k",), True, ()), ("keys", ("k", "v"), True, ()), ("keys", ("v",), False, ()),
+    # long values cross the externalisation threshold (min_size_to_cache=64 below); disable_cache_args keeps some inline
+    ("keys", ("k",), True, ("k",)), ("arguments", (), False, ("v",)), ("keys", ("k", "v"), False, ("*",)),
 ]
+LONG = "L" * 90
 
 
 def kv(d: dict[str, str]) -> str:
@@ -62,10 +65,12 @@ def run(ctx: Ctx) -> None:
     nd = 0
     nsteps = 120 if ctx.quick else 700
     try:
-        for ci, (mode, keys, rse) in enumerate(CONFIGS):
+        for ci, (mode, keys, rse, dca) in enumerate(CONFIGS):
             for kind in ("mem", "sqlite"):
-                app = make_app(kind, ctx.tmp, app_id=f"c07{kind}{ci}")
+                app = make_app(kind, ctx.tmp, app_id=f"c07{kind}{ci}", min_size_to_cache=64)
                 opts: dict[str, Any] = {"registration_concurrency": C(mode)}
+                if dca:
+                    opts["disable_cache_args"] = dca
                 if keys:
                     opts["key_arguments"] = keys
                 opts["on_diff_non_key_args_raise"] = rse
@@ -78,6 +83,7 @@ def run(ctx: Ctx) -> None:
                 unused = 0
 
                 def regkey(a: dict[str, str]):
+                    # the registration key in terms of the CALL's argument values (raw, not their serialized form)
                     if mode == "task":
                         return ()
                     if mode == "arguments":
@@ -95,7 +101,7 @@ def run(ctx: Ctx) -> None:
                             cnt.setdefault(regkey(d["args"]), []).append(i)
                     for k_, ids in cnt.items():
                         if len(ids) > 1:
-                            ctx.report(f"two-registered-per-key[{kind}]:{mode}", f"[{kind}] {len(ids)} REGISTERED invocations share registration key {k_} (mode {mode}, keys {keys}) after {where}",
+                            ctx.report(f"two-registered-per-key[{kind}]:{mode}", f"[{kind}] {len(ids)} REGISTERED invocations share registration key {str(k_)[:120]} (mode {mode}, keys {keys}, disable_cache_args {dca}) after {where}",
                                        {"backend": kind, "mode": mode, "keys": keys, "key": k_})
                     return cnt
 
@@ -103,7 +109,7 @@ def run(ctx: Ctx) -> None:
                     clock.advance(1000)
                     r = ctx.rng.random()
                     if r < 0.6 or not invs:
-                        k_, v_, w_ = ctx.rng.choice("ab"), ctx.rng.choice(["d", "x"]), ctx.rng.choice(["e", "y"])
+                        k_, v_, w_ = ctx.rng.choice(["a", "b", "a" + LONG, "b" + LONG] if ci >= 7 else "ab"), ctx.rng.choice(["d", "x", "x" + LONG] if ci >= 7 else ["d", "x"]), ctx.rng.choice(["e", "y"])
                         args, kwargs = spell(ctx.rng, k_, v_, w_)
                         bound = {"k": k_, "v": v_, "w": w_}
                         call = Call(task, task.args(*args, **kwargs))
@@ -128,7 +134,7 @@ def run(ctx: Ctx) -> None:
                         if impl[0] == "new":
                             rec = o.get_invocation_status_record(impl[1])
                             rid = rec.runner_id
-                            invs[impl[1]] = {"args": ser, "status": "registered", "call": call_key}
+                            invs[impl[1]] = {"args": bound, "status": "registered", "call": call_key}
                         m = drv.ask(f"cc.route {tok(tname)} {tok(call_key)} {tok(fresh)} {tok(rid)} {clock.us} {kv(ser)}")
                         i_line = impl[0] + (f" {tok(impl[1])}" if impl[1] else "")
                         ctx.count()
@@ -139,7 +145,7 @@ def run(ctx: Ctx) -> None:
                                 ctx.obligation(f"correspondence route_call[{kind}] mode={mode} keys={keys} raise={rse}", False,
                                                f"call {bound} spelled {args}/{kwargs}: impl {i_line!r} model {m!r}")
                         # ---- oracle -------------------------------------------------------------------------
-                        key_now = regkey(ser)
+                        key_now = regkey(bound)
                         existing = cnt_before.get(key_now, [])
                         rep = {"backend": kind, "mode": mode, "keys": keys, "raise": rse, "call": bound, "spelling": [list(args), kwargs]}
                         if mode == "disabled":
